@@ -17,6 +17,9 @@ CONSTANTS N,          \* number of stages
           DropParentCloseW,  \* mutant switch: parent forgets to close write end
           FailAt,            \* 0 = no fault; k = the k-th pipe() of run_pipeline fails with EMFILE
           Capture,           \* TRUE = output of the last stage is captured (command substitution)
+          HereAt,            \* 0 = no here-string; i = stage i reads a here-string (`cmd <<< word`)
+          HereUnits,         \* units the shell writes into the here-string pipe
+          SigpipeMode,       \* "default" = the shell writes with SIGPIPE at its default disposition (core.rs as pinned); "ignored"
           CapReadMode        \* "sequential" = core.rs as pinned: stdout to EOF, then stderr; "concurrent" = both drained together
 
 Shell == 0
@@ -25,7 +28,9 @@ Procs == {Shell} \cup Stages
 Pipes == 1..(N-1)
 CapO == N
 CapE == N + 1
-AllPipes == IF Capture THEN 1..(N+1) ELSE Pipes
+HerePipe == N + 2
+AllPipes == (IF Capture THEN 1..(N+1) ELSE Pipes) \cup (IF HereAt > 0 THEN {HerePipe} ELSE {})
+ToFork(i) == IF i = HereAt THEN <<"mkhere", i>> ELSE <<"fork", i>>
 TTY == <<"tty", 0>>
 R(k) == <<"r", k>>
 W(k) == <<"w", k>>
@@ -56,7 +61,7 @@ Std == [x \in {0, 1, 2} |-> TTY]
 Init ==
   /\ fdt = [p \in Procs |-> IF p = Shell THEN Std ELSE [x \in {} |-> TTY]]
   /\ alive = [p \in Procs |-> IF p = Shell THEN "run" ELSE "unborn"]
-  /\ spc = IF N > 1 THEN <<"mkpipe", 1>> ELSE IF Capture THEN <<"mkcap", 0>> ELSE <<"fork", 1>>
+  /\ spc = IF N > 1 THEN <<"mkpipe", 1>> ELSE IF Capture THEN <<"mkcap", 0>> ELSE ToFork(1)
   /\ cpc = [i \in Stages |-> "none"]
   /\ buf = [k \in AllPipes |-> 0]
   /\ left = [i \in Stages |-> IF Kinds[i] \in {"prod", "eprod"} THEN Units ELSE 0]
@@ -77,7 +82,7 @@ MkPipe ==
                  f1 == With(fdt[Shell], r, R(k))
                  w == LowestFree(f1)
              IN fdt' = [fdt EXCEPT ![Shell] = With(f1, w, W(k))]
-          /\ spc' = IF spc[2] < N - 1 THEN <<"mkpipe", spc[2] + 1>> ELSE IF Capture THEN <<"mkcap", 0>> ELSE <<"fork", 1>>
+          /\ spc' = IF spc[2] < N - 1 THEN <<"mkpipe", spc[2] + 1>> ELSE IF Capture THEN <<"mkcap", 0>> ELSE ToFork(1)
   /\ UNCHANGED <<alive, cpc, buf, left, got, status, nextfd, reaped>>
 
 MkCapture ==
@@ -90,7 +95,7 @@ MkCapture ==
          f3 == With(f2, r2, R(CapE))
          w2 == LowestFree(f3)
      IN fdt' = [fdt EXCEPT ![Shell] = With(f3, w2, W(CapE))]
-  /\ spc' = <<"fork", 1>>
+  /\ spc' = ToFork(1)
   /\ UNCHANGED <<alive, cpc, buf, left, got, status, nextfd, reaped>>
 
 Fork ==
@@ -99,8 +104,39 @@ Fork ==
      /\ fdt' = [fdt EXCEPT ![i] = fdt[Shell]]
      /\ alive' = [alive EXCEPT ![i] = "run"]
      /\ cpc' = [cpc EXCEPT ![i] = "left"]
-  /\ spc' = <<"pclosew", spc[2]>>
+  /\ spc' = IF spc[2] = HereAt THEN <<"hereclose", spc[2]>> ELSE <<"pclosew", spc[2]>>
   /\ UNCHANGED <<buf, left, got, status, nextfd, reaped>>
+
+\* here-string (`cmd <<< word`): a pipe made right before the stage is forked; after the fork the shell closes the read end,
+\* writes the text into the pipe (blocking when it is full) and closes the write end; the child makes the read end its stdin
+MkHere ==
+  /\ spc[1] = "mkhere"
+  /\ LET r == LowestFree(fdt[Shell])
+         f1 == With(fdt[Shell], r, R(HerePipe))
+         w == LowestFree(f1)
+     IN fdt' = [fdt EXCEPT ![Shell] = With(f1, w, W(HerePipe))]
+  /\ spc' = <<"fork", spc[2]>>
+  /\ UNCHANGED <<alive, cpc, buf, left, got, status, nextfd, reaped>>
+HereClose ==
+  /\ spc[1] = "hereclose"
+  /\ fdt' = [fdt EXCEPT ![Shell] = DropOfd(fdt[Shell], R(HerePipe))]
+  /\ spc' = IF HereUnits > 0 THEN <<"herewrite", HereUnits>> ELSE <<"hereend", 0>>
+  /\ UNCHANGED <<alive, cpc, buf, left, got, status, nextfd, reaped>>
+HereWrite ==
+  /\ spc[1] = "herewrite"
+  /\ IF ~(\E p \in Procs : alive[p] = "run" /\ Has(fdt[p], R(HerePipe)))
+     THEN \* nobody can read any more: EPIPE - with the default disposition the signal kills the shell
+          /\ spc' = IF SigpipeMode = "default" THEN <<"dead", 0>> ELSE <<"hereend", 0>>
+          /\ UNCHANGED buf
+     ELSE /\ buf[HerePipe] < Cap
+          /\ buf' = [buf EXCEPT ![HerePipe] = @ + 1]
+          /\ spc' = IF spc[2] > 1 THEN <<"herewrite", spc[2] - 1>> ELSE <<"hereend", 0>>
+  /\ UNCHANGED <<fdt, alive, cpc, left, got, status, nextfd, reaped>>
+HereEnd ==
+  /\ spc[1] = "hereend"
+  /\ fdt' = [fdt EXCEPT ![Shell] = DropOfd(fdt[Shell], W(HerePipe))]
+  /\ spc' = <<"pclosew", HereAt>>
+  /\ UNCHANGED <<alive, cpc, buf, left, got, status, nextfd, reaped>>
 
 PCloseW ==
   /\ spc[1] = "pclosew"
@@ -115,7 +151,7 @@ PCloseR ==
   /\ LET i == spc[2] IN
      fdt' = IF i > 1 /\ Has(fdt[Shell], R(i - 1))
             THEN [fdt EXCEPT ![Shell] = Without(@, FdOf(@, R(i - 1)))] ELSE fdt
-  /\ spc' = IF spc[2] < N THEN <<"fork", spc[2] + 1>> ELSE IF Capture THEN <<"capclose", 0>> ELSE <<"wait", 0>>
+  /\ spc' = IF spc[2] < N THEN ToFork(spc[2] + 1) ELSE IF Capture THEN <<"capclose", 0>> ELSE <<"wait", 0>>
   /\ UNCHANGED <<alive, cpc, buf, left, got, status, nextfd, reaped>>
 
 \* parent, capture: close both write ends, read stdout to EOF, then stderr to EOF (File drops close the read ends)
@@ -200,6 +236,13 @@ CDupOut(i) ==
             THEN [fdt EXCEPT ![i] = LET f1 == With(@, 1, W(i)) IN
                                     [d \in {x \in Dom(f1) : x <= 2 \/ (f1[x] # R(i) /\ f1[x] # W(i))} |-> f1[d]]]
             ELSE fdt
+  /\ cpc' = [cpc EXCEPT ![i] = IF i = HereAt THEN "here" ELSE IF Capture /\ i = N THEN "capdup" ELSE "exec"]
+  /\ UNCHANGED <<alive, spc, buf, left, got, status, nextfd, reaped>>
+
+CHere(i) ==   \* the stage with the here-string: close the write end, the read end becomes stdin
+  /\ cpc[i] = "here"
+  /\ fdt' = [fdt EXCEPT ![i] = LET f1 == With(@, 0, R(HerePipe)) IN
+                               [d \in {x \in Dom(f1) : x <= 2 \/ (f1[x] # R(HerePipe) /\ f1[x] # W(HerePipe))} |-> f1[d]]]
   /\ cpc' = [cpc EXCEPT ![i] = IF Capture /\ i = N THEN "capdup" ELSE "exec"]
   /\ UNCHANGED <<alive, spc, buf, left, got, status, nextfd, reaped>>
 
@@ -301,8 +344,8 @@ EarlyExit(i) ==
 Finished == spc[1] \in {"done", "failed"} /\ UNCHANGED vars
 
 Next ==
-  \/ MkPipe \/ MkCapture \/ Fork \/ PCloseW \/ PCloseR \/ CapClose \/ CapRead
-  \/ \E i \in Stages : Wait(i) \/ CLeft(i) \/ CRight(i) \/ CDupIn(i) \/ CDupIn2(i) \/ CDupOut(i) \/ CExec(i) \/ CCapture(i) \/ CCapDup(i)
+  \/ MkPipe \/ MkCapture \/ Fork \/ PCloseW \/ PCloseR \/ CapClose \/ CapRead \/ MkHere \/ HereClose \/ HereWrite \/ HereEnd
+  \/ \E i \in Stages : Wait(i) \/ CLeft(i) \/ CRight(i) \/ CDupIn(i) \/ CDupIn2(i) \/ CDupOut(i) \/ CExec(i) \/ CCapture(i) \/ CCapDup(i) \/ CHere(i)
                        \/ ProdWrite(i) \/ ProdExit(i) \/ FiltRead(i) \/ FiltWrite(i) \/ EarlyExit(i) \/ EProdWrite(i) \/ EProdExit(i)
   \/ Finished
 
@@ -316,7 +359,8 @@ NoForeignEnds == spc[1] \in {"wait", "done"} =>
    \A k \in Pipes : \A p \in Procs : (alive[p] = "run" /\ (p = Shell \/ cpc[p] = "prog")) =>
       ((Has(fdt[p], W(k)) => p = k) /\ (Has(fdt[p], R(k)) => p = k + 1))
 Delivery == (spc[1] = "done" /\ \A i \in Stages : Kinds[i] \in {"prod", "filt", "cons"}) =>
-             got[N] = (IF Kinds[1] = "prod" THEN Units ELSE 0)
+             got[N] = (IF HereAt = N THEN HereUnits ELSE IF Kinds[1] = "prod" THEN Units ELSE 0)
 Termination == <>(spc[1] \in {"done", "failed"})
+ShellAlive == spc[1] # "dead"
 StartedOnce == \A i \in Stages : alive[i] \in {"unborn", "run", "zombie", "reaped"}
 =============================================================================
